@@ -2,7 +2,7 @@
 """Regenerates MANIFEST.json from the table below (kept in one place so it stays valid)."""
 import json, os, subprocess
 V = os.path.dirname(os.path.abspath(__file__))
-hooks_commits = subprocess.run(["git", "-C", "/repo", "log", "--format=%h %s", "--grep=^verif hook"],
+hooks_commits = subprocess.run(["git", "-C", "/repo", "log", "--format=%h", "--grep=^verif hook"],
                                capture_output=True, text=True).stdout.strip().splitlines()
 TECH = "bounded model checking of the compiled Rust code (Kani 0.68 -> CBMC 6.11 -> CaDiCaL), symbolic inputs/events, native replay of counterexamples"
 NOTE_W = ("Trusted base: mock Socket + streaming oracle in /verif/kani/worker_h.rs, model file system and virtual clock "
